@@ -1409,4 +1409,62 @@ theorem noStamp_merge_none (e oe : Entry) (he : noStamp e = true) (ho : noStamp 
   refine ⟨?_, noStampBelow_merge_none e oe he.2 (noStamp_dir oe ho)⟩
   rw [(merge_keep e none oe).1.2.2.2]; exact he.1
 
+/-! ### `FindModuleByNamespace` asked directly -/
+
+theorem instantiatingModuleAt_eq_findByNamespace (reg : Registry) (f : Forest) (loc : Loc) :
+    instantiatingModuleAt reg f loc = findByNamespace reg (namespaceAt reg f loc) := rfl
+
+/-- The answer is `n` exactly when some loaded module declares exactly the string `ns` and is
+called `n`, and every loaded module declaring exactly `ns` is called `n`. -/
+theorem findByNamespace_eq_some_iff (reg : Registry) (ns n : String) :
+    findByNamespace reg ns = some n ↔
+      (∃ m ∈ reg.distinctModules, nsOfMod m = ns ∧ m.name = n) ∧
+      (∀ m ∈ reg.distinctModules, nsOfMod m = ns → m.name = n) := by
+  unfold findByNamespace
+  have hmem : ∀ m, m ∈ reg.distinctModules.filter (fun m => (m.stmt.argOf? "namespace").getD "" == ns) ↔
+      m ∈ reg.distinctModules ∧ nsOfMod m = ns := by
+    intro m; simp [List.mem_filter, nsOfMod]
+  generalize reg.distinctModules.filter (fun m => (m.stmt.argOf? "namespace").getD "" == ns) = l at hmem
+  cases l with
+  | nil =>
+    constructor
+    · intro h; cases h
+    · rintro ⟨⟨m, hm, hns, _⟩, _⟩
+      exact absurd ((hmem m).mpr ⟨hm, hns⟩) (by simp)
+  | cons m0 rest =>
+    simp only
+    constructor
+    · intro h
+      split at h
+      · rename_i hall
+        simp only [Option.some.injEq] at h
+        have h0 := (hmem m0).mp (by simp)
+        refine ⟨⟨m0, h0.1, h0.2, h⟩, ?_⟩
+        intro m hm hns
+        have := (hmem m).mpr ⟨hm, hns⟩
+        rcases List.mem_cons.mp this with rfl | hr
+        · exact h
+        · have := List.all_eq_true.mp hall m hr
+          simp only [beq_iff_eq] at this
+          rw [this, h]
+      · cases h
+    · rintro ⟨_, hall⟩
+      have h0 := (hmem m0).mp (by simp)
+      have hn0 := hall m0 h0.1 h0.2
+      have : rest.all (fun x => x.name == m0.name) = true := by
+        rw [List.all_eq_true]
+        intro x hx
+        have hx' := (hmem x).mp (List.mem_cons_of_mem _ hx)
+        simp [hall x hx'.1 hx'.2, hn0]
+      rw [if_pos this, hn0]
+
+/-- A spelling that no loaded module declares exactly finds nothing. -/
+theorem findByNamespace_undeclared (reg : Registry) (ns : String)
+    (h : ∀ m ∈ reg.distinctModules, nsOfMod m ≠ ns) : findByNamespace reg ns = none := by
+  cases hr : findByNamespace reg ns with
+  | none => rfl
+  | some n =>
+    obtain ⟨⟨m, hm, hns, _⟩, _⟩ := (findByNamespace_eq_some_iff reg ns n).mp hr
+    exact absurd hns (h m hm)
+
 end Goyang.Lemmas.ConfigNs
